@@ -2,6 +2,8 @@
 
 package encoding
 
+import "io"
+
 // Contracts for the gcv verifier (/verif). This file is compiled only with the build tag
 // `verif`; it contains structured comments (//@ ...) and ghost (specification-only)
 // functions. No production code calls anything declared here.
@@ -136,3 +138,188 @@ func lemmaNatRoundTrip(v Nat, buf []byte) Nat {
 	r, _, _ := ParseNat(buf[:n])
 	return r
 }
+
+// ---------------------------------------------------------------------------------------
+// Executable counterparts of the contract pseudo-builtins (used by spec functions below and
+// by replay harnesses; gcv gives them their logical meaning directly).
+// ---------------------------------------------------------------------------------------
+
+func forallIn(lo, hi int, f func(int) bool) bool {
+	for i := lo; i < hi; i++ {
+		if !f(i) {
+			return false
+		}
+	}
+	return true
+}
+
+func implies(a, b bool) bool { return !a || b }
+
+// ---------------------------------------------------------------------------------------
+// readers.go — representation invariants and the abstract view "position / length"
+// ---------------------------------------------------------------------------------------
+
+// wfBR: a BufferReader's position lies inside its buffer.
+func wfBR(r *BufferReader) bool { return r != nil && 0 <= r.pos && r.pos <= len(r.buf) }
+
+// wfWR: a WireReader's prefix-sum table matches its segments and (seg, pos) is a valid cursor.
+func wfWR(r *WireReader) bool {
+	return r != nil && len(r.accSz) == len(r.wire)+1 && r.accSz[0] == 0 &&
+		forallIn(0, len(r.wire), func(i int) bool { return r.accSz[i+1] == r.accSz[i]+len(r.wire[i]) }) &&
+		0 <= r.seg && r.seg <= len(r.wire) && 0 <= r.pos &&
+		implies(r.seg < len(r.wire), r.pos <= len(r.wire[r.seg])) &&
+		implies(r.seg == len(r.wire), r.pos == 0)
+}
+
+// rdWf / rdPos / rdLen: the same notions for a reader behind an interface (closed over the two
+// implementations in this package).
+func rdWf(r io.ByteReader) bool {
+	if br, ok := r.(*BufferReader); ok {
+		return wfBR(br)
+	}
+	if wr, ok := r.(*WireReader); ok {
+		return wfWR(wr)
+	}
+	return false
+}
+
+func rdPos(r io.ByteReader) int {
+	if br, ok := r.(*BufferReader); ok {
+		return br.pos
+	}
+	wr := r.(*WireReader)
+	return wr.accSz[wr.seg] + wr.pos
+}
+
+func rdLen(r io.ByteReader) int {
+	if br, ok := r.(*BufferReader); ok {
+		return len(br.buf)
+	}
+	wr := r.(*WireReader)
+	return wr.accSz[len(wr.wire)]
+}
+
+//@ func (*BufferReader).ReadByte
+//@   requires wfBR(r)
+//@   modifies r.pos
+//@   ensures wfBR(r)
+//@   ensures result1 == nil ==> old(r.pos) < len(r.buf) && result0 == r.buf[old(r.pos)] && r.pos == old(r.pos)+1
+//@   ensures result1 != nil ==> result1 == io.EOF && old(r.pos) == len(r.buf) && r.pos == old(r.pos)
+
+//@ func (*BufferReader).Read
+//@   requires wfBR(r)
+//@   modifies r.pos, b[*]
+//@   ensures wfBR(r) && 0 <= result0 && result0 <= len(b) && r.pos == old(r.pos)+result0
+
+//@ func (*BufferReader).UnreadByte
+//@   requires wfBR(r)
+//@   modifies r.pos
+//@   ensures wfBR(r)
+
+//@ func (*BufferReader).Seek
+//@   requires wfBR(r)
+//@   modifies r.pos
+//@   ensures wfBR(r)
+
+//@ func (*BufferReader).Skip
+//@   requires wfBR(r)
+//@   modifies r.pos
+//@   ensures wfBR(r)
+//@   ensures result == nil ==> r.pos == old(r.pos)+n
+//@   ensures result != nil ==> r.pos == old(r.pos)
+
+//@ func (*BufferReader).ReadWire
+//@   requires wfBR(r)
+//@   modifies r.pos
+//@   ensures wfBR(r)
+//@   ensures result1 == nil ==> len(result0) == 1 && len(result0[0]) == l && r.pos == old(r.pos)+l
+//@   ensures result1 != nil ==> r.pos == old(r.pos)
+
+//@ func (*BufferReader).ReadBuf
+//@   requires wfBR(r)
+//@   modifies r.pos
+//@   ensures wfBR(r)
+//@   ensures result1 == nil ==> len(result0) == l && r.pos == old(r.pos)+l
+//@   ensures result1 == nil ==> forallIn(0, l, func(i int) bool { return result0[i] == r.buf[old(r.pos)+i] })
+//@   ensures result1 != nil ==> r.pos == old(r.pos) && (l < 0 || l > len(r.buf)-old(r.pos))
+
+//@ func (*BufferReader).Pos
+//@   requires wfBR(r)
+//@   ensures result == r.pos
+
+//@ func (*BufferReader).Length
+//@   requires wfBR(r)
+//@   ensures result == len(r.buf)
+
+//@ func (*BufferReader).Range
+//@   requires wfBR(r)
+//@   ensures result == nil || (len(result) == 1 && len(result[0]) == end-start)
+
+//@ func (*BufferReader).Delegate
+//@   requires wfBR(r)
+//@   modifies r.pos
+//@   ensures wfBR(r) && rdWf(result) && fresh(result.(*BufferReader))
+//@   ensures 0 <= l && l <= len(r.buf)-old(r.pos) ==> r.pos == old(r.pos)+l && rdLen(result) == l && rdPos(result) == 0
+
+//@ func NewBufferReader
+//@   ensures wfBR(result) && fresh(result) && result.pos == 0 && sameSlice(result.buf, buf)
+
+//@ func (*WireReader).nextSeg
+//@   requires wfWR(r)
+//@   modifies r.seg, r.pos
+//@   ensures wfWR(r) && result == (r.seg < len(r.wire))
+//@   ensures r.accSz[r.seg]+r.pos == old(r.accSz[r.seg]+r.pos)
+
+//@ func (*WireReader).ReadByte
+//@   requires wfWR(r)
+//@   modifies r.seg, r.pos
+//@   ensures wfWR(r)
+//@   ensures result1 == nil ==> r.accSz[r.seg]+r.pos == old(r.accSz[r.seg]+r.pos)+1
+//@   ensures result1 != nil ==> result1 == io.EOF && r.accSz[r.seg]+r.pos == old(r.accSz[r.seg]+r.pos)
+
+//@ func (*WireReader).Read
+//@   requires wfWR(r)
+//@   modifies r.seg, r.pos, b[*]
+//@   ensures wfWR(r) && 0 <= result0 && result0 <= len(b)
+
+//@ func (*WireReader).UnreadByte
+//@   requires wfWR(r)
+//@   modifies r.seg, r.pos
+//@   ensures wfWR(r)
+
+//@ func (*WireReader).ReadWire
+//@   requires wfWR(r)
+//@   modifies r.seg, r.pos
+//@   ensures wfWR(r)
+
+//@ func (*WireReader).ReadBuf
+//@   requires wfWR(r)
+//@   modifies r.seg, r.pos
+//@   ensures wfWR(r)
+//@   ensures result1 == nil ==> len(result0) == l
+
+//@ func (*WireReader).Pos
+//@   requires wfWR(r)
+//@   ensures result == r.accSz[r.seg]+r.pos
+
+//@ func (*WireReader).Length
+//@   requires wfWR(r)
+//@   ensures result == r.accSz[len(r.wire)]
+
+//@ func (*WireReader).Range
+//@   requires wfWR(r)
+
+//@ func (*WireReader).Skip
+//@   requires wfWR(r)
+//@   modifies r.seg, r.pos
+//@   ensures wfWR(r)
+
+//@ func (*WireReader).Delegate
+//@   requires wfWR(r)
+//@   modifies r.seg, r.pos
+//@   ensures wfWR(r) && rdWf(result)
+
+//@ func NewWireReader
+//@   ensures wfWR(result) && fresh(result) && result.seg == 0 && result.pos == 0 && sameSlice(result.wire, w)
+//@   loop 1 invariant 0 <= i && i <= len(w) && len(accSz) == len(w)+1 && accSz[0] == 0 && fresh(accSz)
+//@   loop 1 invariant forallIn(0, i, func(j int) bool { return accSz[j+1] == accSz[j]+len(w[j]) })
